@@ -57,6 +57,9 @@ list_t              *snoopy_tsrm_threadRepo = &snoopy_tsrm_threadRepo_data;
  * Non-exported function prototypes
  */
 void                        snoopy_tsrm_init                      ();
+void                        snoopy_tsrm_atfork_prepare            ();
+void                        snoopy_tsrm_atfork_parent             ();
+void                        snoopy_tsrm_atfork_child              ();
 int                         snoopy_tsrm_doesThreadRepoEntryExist  (snoopy_tsrm_threadId_t threadId, int mutex_already_locked);
 snoopy_tsrm_threadId_t      snoopy_tsrm_getCurrentThreadId        ();
 listNode_t*                 snoopy_tsrm_getCurrentThreadRepoEntry ();
@@ -165,6 +168,94 @@ void snoopy_tsrm_init ()
     pthread_mutexattr_init   (&snoopy_tsrm_threadRepo_mutexAttr);
     pthread_mutexattr_settype(&snoopy_tsrm_threadRepo_mutexAttr, PTHREAD_MUTEX_RECURSIVE);
     pthread_mutex_init       (&snoopy_tsrm_threadRepo_mutex, &snoopy_tsrm_threadRepo_mutexAttr);
+
+    // Keep threadRepo (and its mutex) usable in children forked from a multithreaded process
+    pthread_atfork(&snoopy_tsrm_atfork_prepare, &snoopy_tsrm_atfork_parent, &snoopy_tsrm_atfork_child);
+}
+
+
+
+/*
+ * snoopy_tsrm_atfork_prepare
+ *
+ * Description:
+ *     Runs in the forking thread right before fork(). Acquires threadRepo mutex,
+ *     so no other thread is in the middle of changing threadRepo when the
+ *     snapshot of the process is taken.
+ *
+ * Params:
+ *     (none)
+ *
+ * Return:
+ *     void
+ */
+void snoopy_tsrm_atfork_prepare ()
+{
+    pthread_mutex_lock(&snoopy_tsrm_threadRepo_mutex);
+}
+
+
+
+/*
+ * snoopy_tsrm_atfork_parent
+ *
+ * Description:
+ *     Runs in the forking thread of the parent process right after fork().
+ *     Releases the mutex acquired by snoopy_tsrm_atfork_prepare().
+ *
+ * Params:
+ *     (none)
+ *
+ * Return:
+ *     void
+ */
+void snoopy_tsrm_atfork_parent ()
+{
+    pthread_mutex_unlock(&snoopy_tsrm_threadRepo_mutex);
+}
+
+
+
+/*
+ * snoopy_tsrm_atfork_child
+ *
+ * Description:
+ *     Runs in the (only) thread of the child process right after fork().
+ *     The mutex acquired by snoopy_tsrm_atfork_prepare() is owned by the forking
+ *     thread's kernel TID in the parent process, which is not our TID, so it
+ *     can not be unlocked here. It gets re-created instead. Entries of all
+ *     other threads are removed, as those threads do not exist in the child.
+ *
+ * Params:
+ *     (none)
+ *
+ * Return:
+ *     void
+ */
+void snoopy_tsrm_atfork_child ()
+{
+    snoopy_tsrm_threadId_t      myThreadId;
+    listNode_t                 *curNode;
+    listNode_t                 *nextNode;
+    snoopy_tsrm_threadData_t   *tData;
+
+    // Re-create the mutex
+    pthread_mutex_init(&snoopy_tsrm_threadRepo_mutex, &snoopy_tsrm_threadRepo_mutexAttr);
+
+    // Remove entries of threads that were not carried over to the child
+    myThreadId = snoopy_tsrm_getCurrentThreadId();
+    curNode    = snoopy_util_list_fetchNextNode(snoopy_tsrm_threadRepo, NULL);
+    while (NULL != curNode) {
+        nextNode = snoopy_util_list_fetchNextNode(snoopy_tsrm_threadRepo, curNode);
+        tData    = curNode->value;
+        if ((NULL != tData) && (0 == pthread_equal(myThreadId, tData->threadId))) {
+            snoopy_util_list_remove(snoopy_tsrm_threadRepo, curNode);
+            free(tData->inputdatastorage);
+            free(tData->configuration);
+            free(tData);
+        }
+        curNode = nextNode;
+    }
 }
 
 
